@@ -1986,6 +1986,10 @@ namespace bloch::runtime {
                 bool ambiguousSuperCtor = false;
                 int bestCost = std::numeric_limits<int>::max();
                 for (auto& c : cls->base->constructors) {
+                    // a private base constructor is not the subclass's to call, however well it
+                    // fits the dynamic argument (the analyser resolved among the accessible ones)
+                    if (c.decl && c.decl->visibility == compiler::Visibility::Private)
+                        continue;
                     auto cost = argumentsConversionCost(c.params, superArgs);
                     if (!cost)
                         continue;
